@@ -11,7 +11,7 @@ Lemma cut_analysis : analyse grammar_cut = {| r_nu_bad := []; r_cycles := []; r_
 Proof. vm_compute. reflexivity. Qed.
 
 (* on the uncut grammar, the entries on a cycle of calls-before-consumption are exactly the assumed loops *)
-Lemma uncut_cycles : on_cycle (compute_nu grammar) grammar = ["section$loop#1"; "mech_code$loop#1"].
+Lemma uncut_cycles : same_set (on_cycle (compute_nu grammar) grammar) cycles_expected = true.
 Proof. vm_compute. reflexivity. Qed.
 
 Lemma unknown_as_expected : same_set (unknown_fns grammar) unknown_expected = true.
@@ -23,21 +23,14 @@ Proof. vm_compute. reflexivity. Qed.
 Lemma must_consume_defined : forallb (fun f => match lookup f grammar_cut with Some _ => true | None => false end) must_consume = true.
 Proof. vm_compute. reflexivity. Qed.
 
-Lemma bounds_value : (rank_bound, size_bound) = (25, 227).
-Proof. vm_compute. reflexivity. Qed.
-
-Lemma counts_value :
-  (List.length source_functions, List.length repetition_entries, List.length loop_entries, List.length grammar) = (472, 173, 8, 756).
-Proof. vm_compute. reflexivity. Qed.
-
 Lemma nu_g_ok : nu_bad nu_g grammar_cut = [].
-Proof. pose proof cut_analysis as H. unfold analyse in H. now inversion H. Qed.
+Proof. vm_compute. reflexivity. Qed.
 
 Lemma rk_g_ok : rank_bad nu_g rk_g grammar_cut = [].
-Proof. pose proof cut_analysis as H. unfold analyse in H. now inversion H. Qed.
+Proof. vm_compute. reflexivity. Qed.
 
 Lemma guards_g : guards_live nu_g grammar_cut = guards_allowed.
-Proof. pose proof cut_analysis as H. unfold analyse in H. now inversion H. Qed.
+Proof. vm_compute. reflexivity. Qed.
 
 (* ---- consequences for the extracted grammar ---- *)
 Theorem parser_terminates : forall O, oracle_ok O -> forall f i n,
